@@ -205,6 +205,10 @@ Loop:
 			}
 		case 2:
 			body += text
+			// The request is complete; do not wait for more
+			if len(body) >= contentLength {
+				break Loop
+			}
 		}
 	}
 
